@@ -200,6 +200,47 @@ def stream_with_refusals(name, q0, g, a, m, dip, feed_raw=False):
     return np.array(Q), refused
 
 
+def fkf_by_hand(q0, g, a, m):
+    """FKF has no update(): a live stream calls its public per-sample methods the way its own batch loop does.  A sample one of them refuses with
+    ValueError is skipped (the previous attitude is kept).  Returns (attitudes, refused sample indices)."""
+    import ahrs
+    f = ahrs.filters.FKF()
+    Sg = f.sigma_g * np.identity(3)
+    Sam = np.diag([f.sigma_a] * 3 + [f.sigma_m] * 3)
+    Q, refused = [np.array(q0, float)], []
+    for t in range(1, len(g)):
+        q_ = Q[-1]
+        try:
+            Phi = np.identity(4) + 0.5 * f.Dt * f.Omega4(g[t].copy())
+            Xi = np.array([[q_[1], q_[2], q_[3]], [-q_[0], -q_[3], -q_[2]], [q_[2], -q_[0], -q_[1]], [-q_[2], q_[1], -q_[0]]])
+            Se = (f.Dt / 2.0) ** 2 * Xi @ Sg @ Xi.T
+            qy, J = f.measurement_quaternion_acc_mag(q_.copy(), a[t].copy(), m[t].copy())
+            q, f.Pk = f.kalman_update(q_.copy(), qy, f.Pk, Phi, Se, J @ Sam @ J.T)
+            q = np.asarray(q, float)
+            Q.append(q / np.linalg.norm(q))
+        except ValueError:
+            refused.append(t)
+            Q.append(q_.copy())
+    return np.array(Q), refused
+
+
+def check_fkf_by_hand(case, ctx, g, a, m, gf, af, mf, mask, what):
+    from ahrs.common.orientation import ecompass
+    q0 = call(lambda: np.asarray(ecompass(a[0], m[0], frame="NED", representation="quaternion"), float))
+    if not q0.ok:
+        return
+    out = call(fkf_by_hand, q0.value, gf, af, mf)
+    reg = case.region + ":by-hand"
+    if not out.ok:
+        ctx.ok("FKF streamed by hand through its public per-sample methods refuses a dropout with ValueError or survives it", False,
+               {"exc": "%s: %s" % (out.exc_name, str(out.exc)[:120]), "where": out.where, "fault": what}, region=reg + ":" + out.exc_name)
+        return
+    Q, refused = out.value
+    fin = np.all(np.isfinite(Q), axis=1)
+    if ctx.ok("FKF streamed by hand never yields NaN/inf at or after a dropped-out sample", bool(fin.all()), {"first_bad_sample": int(np.argmin(fin)), "fault": what, "refused": refused[:6]}, region=reg):
+        ctx.ok("FKF streamed by hand: samples outside the dropout are not refused", all(mask[t] for t in refused), {"refused": refused[:8], "fault": what}, region=reg)
+
+
 def check_stream(case, ctx, name, g, a, m, gf, af, mf, mask, what, q0):
     """Streaming twin of the dropout case (interior faults only): every value a caller receives from update() is observed."""
     p = case.p
@@ -252,6 +293,8 @@ def check(case, ctx):
             if okq:
                 ctx.le("an integer-typed recording with a dropout yields unit quaternions", float(np.abs(np.linalg.norm(np.asarray(Qi, float), axis=1) - 1).max()), TOL_UNIT, {"fault": what},
                        region=case.region + ":int")
+    if name == "FKF" and not mask[0] and ("a" in p["sensors"] or "m" in p["sensors"]):
+        check_fkf_by_hand(case, ctx, g, a, m, gf, af, mf, mask, what)
     out = call(run, name, gf, af, mf, p["dip"])
     if stream_it:
         q0 = call(lambda: np.asarray(run(name, g[:2], a[:2], m[:2], p["dip"])[0][0], float))
